@@ -3,6 +3,8 @@ CONSTANTS Universe = "families"
 INVARIANT TypeOK
 INVARIANT NeverUnpackBadHash
 INVARIANT NodownloadFetchesNothing
+INVARIANT NoDownloadNeverFetches
+INVARIANT ClientRunsWhenAllowed
 INVARIANT FailedPatchLeavesNoDir
 INVARIANT SecondRunNeverAcceptsHalfPrepared
 INVARIANT SecondRunSameVerdict
